@@ -223,13 +223,54 @@ def run_sharded(modname, fn="shard", tier="quick", nshards=None, **kw):
 
     random.Random(seed).shuffle(order)
     tasks = [(modname, fn, s, nshards, tier, seed, kw) for s in order]
-    if j == 1 or nshards == 1:
+    if j == 1 and nshards == 1:
         dumps = [_run_shard(t) for t in tasks]
     else:
-        ctx = mp.get_context("fork")
-        with ctx.Pool(min(j, nshards), maxtasksperchild=8) as pool:
-            dumps = list(pool.imap_unordered(_run_shard, tasks))
+        dumps = _run_pool(tasks, min(j, nshards))
     return merge(dumps)
+
+
+def _child(task, conn):
+    try:
+        conn.send(_run_shard(task))
+    finally:
+        conn.close()
+
+
+def _run_pool(tasks, workers):
+    """One process per shard, at most ``workers`` at a time.  A shard whose process dies (the
+    interpreter itself crashed, e.g. a segmentation fault while running code the library generated)
+    is reported as a violation instead of hanging the check."""
+    ctx = mp.get_context("fork")
+    pending = list(tasks)
+    running = {}
+    dumps = []
+    import multiprocessing.connection as mpc
+
+    while pending or running:
+        while pending and len(running) < workers:
+            t = pending.pop(0)
+            rd, wr = ctx.Pipe(duplex=False)
+            p = ctx.Process(target=_child, args=(t, wr))
+            p.start()
+            wr.close()
+            running[rd] = (p, t)
+        ready = mpc.wait(list(running), timeout=1.0)
+        for rd in ready:
+            p, t = running.pop(rd)
+            try:
+                dumps.append(rd.recv())
+            except (EOFError, OSError):
+                p.join()
+                a = Acc("?")
+                case = {"shard": t[2], "of": t[3], "tier": t[4], "module": t[0]}
+                a.violation(case, "interpreter-crashed", {"exitcode": p.exitcode,
+                            "note": "the worker process died while executing this shard (signal %s)" % (-(p.exitcode or 0))})
+                a.n["evaluations"] += 1
+                dumps.append(a.dump())
+            rd.close()
+            p.join()
+    return dumps
 
 
 # ----------------------------------------------------------------------------------------
